@@ -1478,6 +1478,8 @@ class ArgumentParser(ParserDeprecations, ActionsContainer, ArgumentLinking, argp
             if leaf_key == action.dest:
                 return value
             subparser = action._name_parser_map[leaf_key]  # type: ignore[attr-defined]
+            if not isinstance(value, Namespace):
+                raise TypeError(f'Expected settings of subcommand "{key}" to be a nested config: {value!r}')
             subparser.validate(value, _prefix=key + ".")
         elif isinstance(action, _ActionConfigLoad):
             if isinstance(value, str):
